@@ -1214,6 +1214,7 @@ void SPxSolverBase<R>::setType(Type tp)
          maxTime = base.maxTime;
          objLimit = base.objLimit;
          useTerminationValue = base.useTerminationValue;
+         random = base.random;
          m_status = base.m_status;
          m_nonbasicValue = base.m_nonbasicValue;
          m_nonbasicValueUpToDate = base.m_nonbasicValueUpToDate;
